@@ -120,6 +120,32 @@ structure St where
 def init : St :=
   { metaSegs := [], files := [], managed := [], lockFile := false, writer := none, searcher := [], nextSeg := 0 }
 
+/-- two small repairs of the code that the model follows when the extractor finds them:
+`restartWorkers` — `prepare_commit` joins every worker and restarts a worker for each before it
+returns the first error (`Gen.PREPARE_COMMIT_RESTARTS_WORKERS`); `rollbackKeeps` — `rollback`
+takes the lock guard out of `self` only after the replacement writer was built
+(`Gen.ROLLBACK_TAKES_GUARD_AFTER_NEW`) -/
+structure Fixes where
+  restartWorkers : Bool
+  rollbackKeeps : Bool
+  /-- configuration rather than repair: the worker closes its segment once it holds this many
+      documents (memory budget exhausted; in the harness the segment-cut hook); `0` = only at commit.
+      With it a transaction consists of several segments, handed to the updater one by one. -/
+  cutDocs : Nat := 0
+  deriving DecidableEq, Repr
+
+/-- the code without the two repairs -/
+def noFix : Fixes := { restartWorkers := false, rollbackKeeps := false }
+
+/-- documents of the current transaction may still be on their way to storage when `commit` joins
+the workers: those in the worker's open segment — and, when segments are cut during the
+transaction, the worker may lag behind the producer, so any acknowledged document may be -/
+def inFlight (fx : Fixes) (w : Writer) : Bool :=
+  !w.queue.isEmpty || (fx.cutDocs != 0 && !w.acked.isEmpty)
+
+/-- the worker's open segment is full -/
+def segFull (fx : Fixes) (q : List Nat) : Bool := fx.cutDocs != 0 && q.length ≥ fx.cutDocs
+
 inductive Call where
   | newWriter | add (d : Nat) | commit | rollback | dropWriter | merge | gc | reload
   /-- the operator deletes an orphaned `.tantivy-writer.lock` by hand (what the documentation of
@@ -203,7 +229,7 @@ def stale (s : St) : Bool :=
 def bombed (w : Writer) (d : Nat) : Writer :=
   { w with alive := false, workerErr := true, queue := [], acked := w.acked ++ [d] }
 
-def call (sy : Bool) (cap : Nat) (f : Plan) (s : St) : Call → St × Res
+def call (sy : Bool) (fx : Fixes) (cap : Nat) (f : Plan) (s : St) : Call → St × Res
   | .newWriter =>
     match s.writer with
     | some _ => (s, .err)                                               -- the harness drops a writer before opening the next
@@ -224,6 +250,10 @@ def call (sy : Bool) (cap : Nat) (f : Plan) (s : St) : Call → St × Res
       else if f .worker then
         -- the worker fails while indexing: its partial files stay behind, the bomb goes off
         ({ (newFiles s) with writer := some (bombed w d) }, .ok)
+      else if segFull fx (w.queue ++ [d]) then
+        -- the worker closes the segment and hands it to the updater (`schedule_add_segment`)
+        ({ (newFiles s) with writer := some { w with queue := [], acked := w.acked ++ [d],
+                                                     uncommitted := w.uncommitted ++ [⟨s.nextSeg, w.queue ++ [d]⟩] } }, .ok)
       else ({ s with writer := some { w with queue := w.queue ++ [d], acked := w.acked ++ [d] } }, .ok)
   | .commit =>
     match s.writer with
@@ -234,10 +264,10 @@ def call (sy : Bool) (cap : Nat) (f : Plan) (s : St) : Call → St × Res
         -- nobody received the queued documents; they are dropped with the old channel
         updaterCommit sy f s { w with alive := true, queue := [] }
       else if w.workerErr then
-        -- first error returned; the handles were taken: no worker is restarted
-        ({ s with writer := some (markErr { w with alive := true, workers := false, workerErr := false, queue := [] }) }, .err)
-      else if !w.queue.isEmpty && f .worker then
-        ({ (newFiles s) with writer := some (markErr { w with alive := true, workers := false, queue := [] }) }, .err)
+        -- first error returned; the handles were taken: no worker is restarted (unless repaired)
+        ({ s with writer := some (markErr { w with alive := true, workers := fx.restartWorkers, workerErr := false, queue := [] }) }, .err)
+      else if inFlight fx w && f .worker then
+        ({ (newFiles s) with writer := some (markErr { w with alive := true, workers := fx.restartWorkers, queue := [] }) }, .err)
       else updaterCommit sy f (flushS s w) (flushW s { w with alive := true })
   | .rollback =>
     match s.writer with
@@ -245,7 +275,11 @@ def call (sy : Bool) (cap : Nat) (f : Plan) (s : St) : Call → St × Res
     | some w =>
       if !w.guard then ({ s with writer := some { w with killed := true } }, .panic)
       else if f .ctorRead then
-        (releaseLock f { s with writer := some (markErr { w with guard := false, killed := true }) }, .err)
+        if fx.rollbackKeeps then
+          -- the replacement is built first: `self` keeps its guard, only its updater was killed
+          ({ s with writer := some (markErr { w with killed := true }) }, .err)
+        else
+          (releaseLock f { s with writer := some (markErr { w with guard := false, killed := true }) }, .err)
       else ({ s with writer := some (freshWriter s) }, .ok)
   | .dropWriter =>
     match s.writer with
@@ -280,16 +314,21 @@ def call (sy : Bool) (cap : Nat) (f : Plan) (s : St) : Call → St × Res
     | some w => (if w.guard then releaseLock f { s with writer := none } else { s with writer := none },
                  if w.workers && (w.workerErr || (!w.queue.isEmpty && f .worker)) then .err else .ok)
 
-def run (sy : Bool) (cap : Nat) (F : Nat → Plan) (i : Nat) (s : St) : List Call → St × List Res
+def run (sy : Bool) (fx : Fixes) (cap : Nat) (F : Nat → Plan) (i : Nat) (s : St) : List Call → St × List Res
   | [] => (s, [])
   | c :: cs =>
-    ((run sy cap F (i + 1) (call sy cap (F i) s c).1 cs).1,
-     (call sy cap (F i) s c).2 :: (run sy cap F (i + 1) (call sy cap (F i) s c).1 cs).2)
+    ((run sy fx cap F (i + 1) (call sy fx cap (F i) s c).1 cs).1,
+     (call sy fx cap (F i) s c).2 :: (run sy fx cap F (i + 1) (call sy fx cap (F i) s c).1 cs).2)
 
-def final (sy : Bool) (cap : Nat) (F : Nat → Plan) (cs : List Call) : St := (run sy cap F 0 init cs).1
+def final (sy : Bool) (fx : Fixes) (cap : Nat) (F : Nat → Plan) (cs : List Call) : St := (run sy fx cap F 0 init cs).1
 
 /-- does `save_metas` of the code sync the directory again after the rename of `meta.json`? -/
 def codeSync2 : Bool := Gen.SAVE_METAS_SYNC_AFTER_WRITE == 1
+
+/-- which of the two repairs the code has now -/
+def codeFixes : Fixes :=
+  { restartWorkers := Gen.PREPARE_COMMIT_RESTARTS_WORKERS == 1,
+    rollbackKeeps := Gen.ROLLBACK_TAKES_GUARD_AFTER_NEW == 1 }
 
 /-- capacity of the document channel in the code -/
 def codeCap : Nat := Gen.PIPELINE_MAX_SIZE_IN_DOCS
